@@ -23,7 +23,7 @@ EXPLANATION = (
     "stack entry that will close it, by its end token, or by rebinding an existing stack entry; R04e the classes in "
     "the INLINE/LEAF/CONTAINER/SPECIAL registries derive from the matching base class; R04f both generators register "
     "an end handler exactly for the classes that are closed by an end token. "
-    "Not decided: the nesting order chosen at run time (which entry is on top when a line is processed)."
+    "R04g (=R02f on the parser packages) no boolean local that is tested or handed on can hold one constant only. Not decided: the nesting order chosen at run time (which entry is on top when a line is processed)."
 )
 ASSUMPTIONS = ["rules and generators match an end token to its start by the end token's type name and start_markdown_token reference"]
 
@@ -247,6 +247,11 @@ def r04f(ctx: Context) -> None:
             rule.ok(key, f"start={html[1].name} end={html[2].name if html[2] else None}")
 
 
+PARSER_PACKAGES = tuple(f"pymarkdown/{name}/" for name in (
+    "block_quotes", "coalesce", "container_blocks", "html", "inline", "leaf_blocks", "links", "list_blocks", "tokens", "general", "extensions",
+))
+
+
 def run(ctx: Context) -> None:
     r04a(ctx)
     r04b(ctx)
@@ -254,3 +259,6 @@ def run(ctx: Context) -> None:
     r04d(ctx)
     r04e(ctx)
     r04f(ctx)
+    from sa.rules import c02
+
+    c02.single_valued_branches(ctx, "R04g", only=PARSER_PACKAGES, floor=400)
